@@ -3,6 +3,7 @@ import json
 import os
 
 from .. import expr as X
+from .. import facts as F
 from .. import taint as TT
 from ..core import VERIF
 
@@ -191,6 +192,7 @@ def r3(ctx):
     setlens = [cs for cs in b.calls() if cs.name == "set_len" and (cs.trait or "").endswith("ScopedBitRead")]
     ctx.anchor(rule, "closure call in read_whole_sub_slice", fcalls)
     ok = False
+    widen = None
     detail = {"function": b.path, "closure_calls": [c.loc() for c in fcalls], "set_len_calls": []}
     for sl in setlens:
         args = O.call_args(sl)
@@ -198,7 +200,25 @@ def r3(ctx):
         detail["set_len_calls"].append({"at": sl.loc(), "argument": X.render(args[1])[:120] if len(args) > 1 else "", "uses_length": dep})
         if dep and fcalls and all(sl.target is not None and b.dominates(sl.target, fc.bb) for fc in fcalls):
             ok = True
-    if ok:
+            # narrowing must never widen: the new end is clamped by the end that was visible before (min with len()), or a
+            # comparison with len() that can only reach an error return dominates the call
+            a1 = args[1] if len(args) > 1 else ("unknown", "")
+            clamped = any(e[0] == "call" and X.last_seg(e[1]) == "min" and any(
+                x[0] == "call" and X.last_seg(x[1]) == "len" for y in e[3] for x in X.walk(y)) for e in X.walk(a1))
+            if not clamped:
+                for c in F.comparisons(b, O):
+                    if c.validating and c.switch_bb is not None and b.dominates(c.switch_bb, sl.bb) and "len(" in (c.lhs + c.rhs) \
+                            and "length_bytes" in (c.lhs + c.rhs):
+                        clamped = True
+            detail["set_len_calls"][-1]["clamped_by_previous_length"] = clamped
+            if not clamped:
+                widen = sl
+    if ok and widen is not None:
+        ctx.fail(rule, "read_whole_sub_slice#set_len-can-widen",
+                 "the visible length is set to position + 8 * length without clamping it by the length that was visible before: an "
+                 "open-type length larger than the rest of the declared input makes bits beyond the declared length readable",
+                 widen.loc(), detail)
+    elif ok:
         ctx.ok(rule, "read_whole_sub_slice", detail)
     else:
         loc = fcalls[0].loc() if fcalls else "%s:%d" % (b.file, b.line)
